@@ -207,13 +207,27 @@ func TestValidatorDecision(t *testing.T) {
 			if strings.Contains(kind, "lo") || strings.Contains(kind, "hi") || strings.Contains(kind, "now") {
 				boundary = true
 			}
-			payload = append(payload, member{name, fmt.Sprint(sec)})
+			// One claim in five carries a fraction of a second (RFC 7519: a NumericDate may be a non-integer).
+			// Away from the bounds every rounding gives the same answer and the decision is binding; at a
+			// bound the floor and the ceiling disagree and the reference says so (robustness oracle).
+			text := fmt.Sprint(sec)
+			if gen.OneIn(rt, name+"_has_fraction", 5) {
+				text += gen.Pick(rt, name+"_fraction", []string{".5", ".25", ".75", ".125"})
+				evid.Add("validator_fractional_"+name, 1)
+			}
+			payload = append(payload, member{name, text})
 		}
 		if rapid.Bool().Draw(rt, "has_sub") {
 			payload = append(payload, member{"sub", jstr(drawString(rt, "sub"))})
 		}
 		if rapid.Bool().Draw(rt, "has_custom") {
-			payload = append(payload, member{drawClaimName(rt, "custom_name"), jtext(drawTameValue(rt, "custom", 1))})
+			// one in four with numbers in exponent form / beyond 2^53: the decision stays binding, only the
+			// comparison of this claim's returned value is loosened
+			if gen.OneIn(rt, "custom_any_number", 4) {
+				payload = append(payload, member{drawClaimName(rt, "custom_name"), jtext(drawValue(rt, "custom", 1))})
+			} else {
+				payload = append(payload, member{drawClaimName(rt, "custom_name"), jtext(drawTameValue(rt, "custom", 1))})
+			}
 		}
 		// member order is arbitrary: rotate
 		if len(payload) > 1 {
@@ -332,14 +346,15 @@ func publicBytes(rt *rapid.T, k *jkey) []byte {
 	return []byte("public")
 }
 
-func mangleLast(s string) (string, bool) {
-	// change the last character so that only unused low bits differ (non-canonical encoding of the same bytes)
+// mangleLast sets the given unused low bits of the last character: another (non-canonical) encoding
+// of the same bytes. len(s)%4 must be 2 (4 unused bits) or 3 (2 unused bits) and s canonical.
+func mangleLast(s string, bits int) string {
 	const alphabet = "ABCDEFGHIJKLMNOPQRSTUVWXYZabcdefghijklmnopqrstuvwxyz0123456789-_"
-	if len(s) == 0 || len(s)%4 == 0 {
-		return s, false
-	}
 	i := strings.IndexByte(alphabet, s[len(s)-1])
-	return s[:len(s)-1] + string(alphabet[i|1]), i|1 != i
+	if len(s)%4 < 2 || i < 0 || i&bits != 0 || bits <= 0 || bits >= 1<<map[int]int{2: 4, 3: 2}[len(s)%4] {
+		panic(fmt.Sprintf("c09: mangleLast(%q, %d)", s, bits))
+	}
+	return s[:len(s)-1] + string(alphabet[i|bits])
 }
 
 // drawManipulation builds one manipulated token for key k. base claims make the untouched token
@@ -365,16 +380,55 @@ func drawManipulation(rt *rapid.T, k *jkey, typ *string, payload []member) manip
 		"dots", "b64-padding", "b64-std-alphabet", "b64-whitespace", "b64-non-ascii", "b64-length1", "b64-trailing-bits",
 		"payload-not-object", "payload-claim-type", "payload-whitespace", "payload-duplicate", "payload-surrogate", "payload-big-number", "payload-fractional-time", "payload-exponent-time", "payload-deep", "payload-invalid-utf8", "payload-escaped-names",
 	}
-	kind := rapid.SampledFrom(kinds).Draw(rt, "manipulation")
-	if k.fam == "PS" && rapid.IntRange(0, 5).Draw(rt, "ps_salt_manipulation") == 0 {
-		kind = "ps-other-salt"
+	// Every kind offered changes the token of THIS case (a kind that would leave it as it is - no kid
+	// to remove, a one-member header to reorder - is not in the list), and the choice is equal-weight.
+	kid, hasKid := k.kid()
+	inPayload := func(name string) bool {
+		for _, m := range payload {
+			if m.name == name {
+				return true
+			}
+		}
+		return false
 	}
+	var escapable []string
+	for _, n := range []string{"exp", "iss", "aud", "nbf", "iat", "custom"} {
+		if inPayload(n) {
+			escapable = append(escapable, n)
+		}
+	}
+	var offered []string
+	for _, c := range kinds {
+		ok := true
+		switch c {
+		case "alg-sibling-resigned":
+			ok = k.fam != "ML-DSA" // an ML-DSA private key cannot sign under another parameter set
+		case "kid-absent", "kid-wrong", "kid-padded", "kid-extended":
+			ok = hasKid
+		case "kid-case":
+			ok = hasKid && swapCase(kid) != kid
+		case "header-member-order":
+			ok = len(hdr) > 1
+		case "payload-escaped-names":
+			ok = len(escapable) > 0
+		}
+		if ok {
+			offered = append(offered, c)
+		}
+	}
+	if k.fam == "PS" {
+		offered = append(offered, "ps-other-salt", "ps-other-salt", "ps-other-salt", "ps-other-salt", "ps-other-salt")
+	}
+	kind := gen.Pick(rt, "manipulation", offered)
+	evid.Add("manip/"+kind, 1)
 	switch kind {
 	case "ps-other-salt":
 		// A well-formed RSASSA-PSS signature by the key itself over the untouched header and payload,
 		// but with a salt length other than the hash length RFC 7518 section 3.5 prescribes for PS*
-		// (0, 20, one off, the longest that fits). It is not a valid PSxxx signature: the strict
-		// reference refuses it, and "signature valid" is the first conjunct of the property.
+		// (0, 20, one off, the longest that fits). The key's algorithm is documented by reference to
+		// that section (jwtrsassapss.Algorithm: "See RFC 7518 section 3.5", which says "The size of the
+		// salt value is the same size as the hash function output"), so this is not a valid signature
+		// of a PSxxx key, and "signature valid under the key" is the first conjunct of the property.
 		hashName := "SHA" + k.alg[2:]
 		hLen := map[string]int{"SHA256": 32, "SHA384": 48, "SHA512": 64}[hashName]
 		r := k.mat.RSA
@@ -399,9 +453,6 @@ func drawManipulation(rt *rapid.T, k *jkey, typ *string, payload []member) manip
 	case "alg-sibling-resigned": // ... and the signature is made with that other algorithm over the same material
 		oa := otherAlg(rt, k)
 		text := object(replaceMember(hdr, "alg", jstr(oa)))
-		if k.fam == "ML-DSA" { // an ML-DSA private key cannot sign under another parameter set
-			return manip{kind: "alg-sibling", token: makeToken(rt, k, k.alg, text, b), note: text}
-		}
 		return manip{kind: kind, token: makeToken(rt, k, oa, text, b), note: text}
 	case "alg-cross-family":
 		var oa string
@@ -439,7 +490,6 @@ func drawManipulation(rt *rapid.T, k *jkey, typ *string, payload []member) manip
 	case "kid-absent":
 		return withHeader(kind, replaceMember(hdr, "kid", ""))
 	case "kid-wrong":
-		kid, _ := k.kid()
 		wrong := rapid.SampledFrom([]string{kid + "x", "", "AAAAAA", jwtref.KeyIDKid(k.id + 1), jwtref.KeyIDKid(k.id ^ 0x80000000), drawString(rt, "wrong_kid")}).Draw(rt, "wrong_kid_pick")
 		if wrong == kid {
 			wrong += "_"
@@ -458,13 +508,10 @@ func drawManipulation(rt *rapid.T, k *jkey, typ *string, payload []member) manip
 		}
 		return withHeader(kind, replaceMember(hdr, "kid", jstr(other)))
 	case "kid-case":
-		kid, _ := k.kid()
 		return withHeader(kind, replaceMember(hdr, "kid", jstr(swapCase(kid))))
 	case "kid-padded":
-		kid, _ := k.kid()
 		return withHeader(kind, replaceMember(hdr, "kid", jstr(kid+rapid.SampledFrom([]string{"==", "=", " ", "\n"}).Draw(rt, "kid_pad"))))
 	case "kid-extended":
-		kid, _ := k.kid()
 		return withHeader(kind, replaceMember(hdr, "kid", jstr(rapid.SampledFrom([]string{kid + "A", "A" + kid, kid + kid}).Draw(rt, "kid_ext"))))
 	case "kid-added-arbitrary":
 		return withHeader(kind, replaceMember(hdr, "kid", jstr(drawString(rt, "arbitrary_kid"))))
@@ -496,7 +543,7 @@ func drawManipulation(rt *rapid.T, k *jkey, typ *string, payload []member) manip
 		}
 		return withHeader(kind, ms)
 	case "header-not-object":
-		return withHeaderText(kind, rapid.SampledFrom([]string{"[]", `"x"`, "null", "1", "true", "", " ", "[" + h + "]", h + h, h + ",", h[:len(h)-1], "{" + h + "}", "\ufeff" + h, "{}", `{"alg":}`}).Draw(rt, "header_text"))
+		return withHeaderText(kind, gen.Pick(rt, "header_text", []string{"[]", `"x"`, "null", "1", "true", "", " ", "[" + h + "]", h + h, h + ",", h[:len(h)-1], "{" + h + "}", "\ufeff" + h, "{}", `{"alg":}`}))
 	case "header-duplicate":
 		ms := append([]member{}, hdr...)
 		dup := rapid.SampledFrom([]member{{"alg", `"none"`}, {"alg", jstr(k.alg)}, {"kid", `"x"`}, {"typ", `"x"`}, {"crit", `["x"]`}, {"foo", "1"}}).Draw(rt, "dup")
@@ -526,7 +573,7 @@ func drawManipulation(rt *rapid.T, k *jkey, typ *string, payload []member) manip
 	case "dots":
 		good := makeToken(rt, k, k.alg, h, b)
 		parts := strings.Split(good, ".")
-		c := rapid.SampledFrom([]string{"trailing-dot", "leading-dot", "double-dot-1", "double-dot-2", "extra-part", "two-parts", "one-part", "empty", "empty-signature", "empty-header", "empty-payload", "only-dots", "four-dots", "header-twice"}).Draw(rt, "dots_kind")
+		c := gen.Pick(rt, "dots_kind", []string{"trailing-dot", "leading-dot", "double-dot-1", "double-dot-2", "extra-part", "two-parts", "one-part", "empty", "empty-signature", "empty-header", "empty-payload", "only-dots", "four-dots", "header-twice"})
 		var tok string
 		switch c {
 		case "trailing-dot":
@@ -561,25 +608,21 @@ func drawManipulation(rt *rapid.T, k *jkey, typ *string, payload []member) manip
 		}
 		return manip{kind: kind + "/" + c, token: tok}
 	case "b64-padding", "b64-std-alphabet", "b64-whitespace", "b64-non-ascii", "b64-length1", "b64-trailing-bits":
-		part := rapid.IntRange(0, 2).Draw(rt, "b64_part")
 		// header and payload texts whose encodings need padding / contain '-' or '_' can be chosen freely:
 		// pad the JSON with spaces until the encoding has the wanted shape.
 		hs, ps := h, b
 		enc := func(s string) string { return jwtref.B64Encode([]byte(s)) }
-		alter := func(s string) (string, bool) {
+		alter := func(s string) string {
 			switch kind {
 			case "b64-padding":
 				if len(s)%4 == 0 {
-					return s + rapid.SampledFrom([]string{"=", "==", "===="}).Draw(rt, "pad_extra"), true
+					return s + rapid.SampledFrom([]string{"=", "==", "===="}).Draw(rt, "pad_extra")
 				}
-				return s + strings.Repeat("=", 4-len(s)%4), true
+				return s + strings.Repeat("=", 4-len(s)%4)
 			case "b64-std-alphabet":
-				if !strings.ContainsAny(s, "-_") {
-					return s, false
-				}
-				return strings.NewReplacer("-", "+", "_", "/").Replace(s), true
+				return strings.NewReplacer("-", "+", "_", "/").Replace(s)
 			case "b64-whitespace":
-				ws := rapid.SampledFrom([]string{" ", "\n", "\r\n", "\t", "\r", " ", " "}).Draw(rt, "b64_ws")
+				ws := rapid.SampledFrom([]string{" ", "\n", "\r\n", "\t", "\r", " ", " "}).Draw(rt, "b64_ws")
 				at := rapid.SampledFrom([]int{0, len(s) / 2, len(s)}).Draw(rt, "b64_ws_at")
 				if len(s) >= 4 {
 					at -= at % 4 // a verifier that strips whitespace would still decode it
@@ -587,15 +630,21 @@ func drawManipulation(rt *rapid.T, k *jkey, typ *string, payload []member) manip
 						at++
 					}
 				}
-				return s[:at] + ws + s[at:], true
+				return s[:at] + ws + s[at:]
 			case "b64-non-ascii":
 				c := rapid.SampledFrom([]string{"Ａ", "é", "\x80", "\xff", "~", "*", ",", ":", "\u0000", "%3D"}).Draw(rt, "b64_char")
 				at := rapid.IntRange(0, len(s)).Draw(rt, "b64_char_at")
-				return s[:at] + c + s[at:], true
+				return s[:at] + c + s[at:]
 			case "b64-length1":
-				return s + "A", len(s)%4 == 0
-			default: // trailing bits
-				return mangleLast(s)
+				// the one length no base64 text has: 1 modulo 4
+				s += "A"
+				for len(s)%4 != 1 {
+					s += "A"
+				}
+				return s
+			default: // trailing bits: set some of the unused low bits of the last character
+				unused := map[int]int{2: 4, 3: 2}[len(s)%4]
+				return mangleLast(s, rapid.IntRange(1, 1<<unused-1).Draw(rt, "b64_trailing_bits"))
 			}
 		}
 		// make the variants applicable to header and payload: a member whose value encodes to '_' in
@@ -615,32 +664,39 @@ func drawManipulation(rt *rapid.T, k *jkey, typ *string, payload []member) manip
 				ps += " "
 			}
 		}
+		// the signature part cannot be shaped: it is offered only when the variant applies to it
+		good := makeToken(rt, k, k.alg, h, b)
+		dot := strings.LastIndex(good, ".")
+		sig := good[dot+1:]
+		partsOffered := []int{0, 1}
+		switch {
+		case kind == "b64-std-alphabet" && !strings.ContainsAny(sig, "-_"):
+		case kind == "b64-trailing-bits" && len(sig)%4 == 0:
+		default:
+			partsOffered = append(partsOffered, 2)
+		}
+		part := gen.Pick(rt, "b64_part", partsOffered)
+		var tok, s string
 		switch part {
 		case 0:
-			s, ok := alter(enc(hs))
-			if !ok {
-				return manip{kind: "untouched", token: makeToken(rt, k, k.alg, h, b), note: "variant not applicable"}
-			}
-			return manip{kind: fmt.Sprintf("%s/part0", kind), token: signParts(rt, k, k.alg, s, p64), note: s}
+			s = alter(enc(hs))
+			tok = signParts(rt, k, k.alg, s, p64)
 		case 1:
-			s, ok := alter(enc(ps))
-			if !ok {
-				return manip{kind: "untouched", token: makeToken(rt, k, k.alg, h, b), note: "variant not applicable"}
-			}
-			return manip{kind: fmt.Sprintf("%s/part1", kind), token: signParts(rt, k, k.alg, h64, s), note: s}
+			s = alter(enc(ps))
+			tok = signParts(rt, k, k.alg, h64, s)
 		default:
-			good := makeToken(rt, k, k.alg, h, b)
-			i := strings.LastIndex(good, ".")
-			s, ok := alter(good[i+1:])
-			if !ok {
-				return manip{kind: "untouched", token: good, note: "variant not applicable"}
-			}
-			return manip{kind: fmt.Sprintf("%s/part2", kind), token: good[:i+1] + s, note: s}
+			s = alter(sig)
+			tok = good[:dot+1] + s
 		}
+		if tok == good {
+			rt.Fatalf("harness: manipulation %s of part %d left the token as it was: %q", kind, part, tok)
+		}
+		evid.Add(fmt.Sprintf("manip/%s/part%d", kind, part), 1)
+		return manip{kind: fmt.Sprintf("%s/part%d", kind, part), token: tok, note: s}
 	case "payload-not-object":
-		return withPayloadText(kind, rapid.SampledFrom([]string{"[]", `"x"`, "null", "1", "true", "", " ", "[" + b + "]", b + b, b[:len(b)-1], "{" + b + "}", b + ",", "\ufeff" + b, `{"a"}`, "{,}"}).Draw(rt, "payload_text"))
+		return withPayloadText(kind, gen.Pick(rt, "payload_text", []string{"[]", `"x"`, "null", "1", "true", "", " ", "[" + b + "]", b + b, b[:len(b)-1], "{" + b + "}", b + ",", "\ufeff" + b, `{"a"}`, "{,}"}))
 	case "payload-claim-type":
-		name := rapid.SampledFrom([]string{"iss", "sub", "jti", "aud", "aud", "exp", "nbf", "iat"}).Draw(rt, "bad_claim")
+		name := gen.Pick(rt, "bad_claim", []string{"iss", "sub", "jti", "aud", "aud", "exp", "nbf", "iat"})
 		var raw string
 		switch name {
 		case "iss", "sub", "jti":
@@ -706,11 +762,16 @@ func drawManipulation(rt *rapid.T, k *jkey, typ *string, payload []member) manip
 		}
 		return withPayloadText(kind+"/"+where, object(ms))
 	case "payload-escaped-names":
+		// one name of a claim that is in the payload for sure, and each of the others half of the time
 		text := b
-		for _, n := range []string{"exp", "iss", "aud", "nbf"} {
-			if rapid.Bool().Draw(rt, "esc_"+n) {
+		must := gen.Pick(rt, "esc_must", escapable)
+		for _, n := range escapable {
+			if n == must || rapid.Bool().Draw(rt, "esc_"+n) {
 				text = strings.Replace(text, `"`+n+`"`, `"\u00`+fmt.Sprintf("%02x", n[0])+n[1:]+`"`, 1)
 			}
+		}
+		if text == b {
+			rt.Fatalf("harness: no claim name of %s could be written with an escape", b)
 		}
 		return withPayloadText(kind, text)
 	}
